@@ -321,7 +321,7 @@ pub fn families(focus: Focus) -> Vec<Box<dyn Family>> {
     ));
     v.push(family(
         "many_edits",
-        "MANY SEPARATE CHANGES: 6000..7500 hunks (thorough up to 40000) in a sequence of otherwise distinct items - more than 10000 raw edit calls and ~2 x hunks captured ops; every 7th hunk needs the clean-up (`q s t` -> `s i s t`), pure insertions and deletions in between x {Myers, Patience}; plus LCS on a pure block deletion / insertion of 10100..13000 items next to such a hunk (one raw call per item); optimum known by construction",
+        "MANY SEPARATE CHANGES: 6000..7500 hunks (thorough up to 12000) in a sequence of otherwise distinct items - more than 10000 raw edit calls and ~2 x hunks captured ops; every 7th hunk needs the clean-up (`q s t` -> `s i s t`), pure insertions and deletions in between x {Myers, Patience}; plus LCS on a pure block deletion / insertion of 10100..13000 items next to such a hunk (one raw call per item); optimum known by construction",
         false,
         1,
         move |cfg| if cfg.tiny { 1 } else { cfg.tier.pick(4, 30) },
@@ -352,7 +352,7 @@ pub fn families(focus: Focus) -> Vec<Box<dyn Family>> {
                 captured_case(focus, cfg, Algorithm::Lcs, &a, 0..a.len(), &b, 0..b.len(), rng.below(5) as u8, false, out);
                 return;
             }
-            let hunks = if cfg.tiny { 8 } else { rng.range(6000, cfg.tier.pick(7500, 40_000)) };
+            let hunks = if cfg.tiny { 8 } else { rng.range(6000, cfg.tier.pick(7500, 12_000)) };
             let (a, b, opt) = gen::many_hunks_pair(hunks);
             let (a, b) = if rng.chance(1, 2) { (a, b) } else { (b, a) };
             let alg = if focus == Focus::C03 || idx % 2 == 0 { Algorithm::Myers } else { Algorithm::Patience };
